@@ -313,6 +313,8 @@ structure St where
   heap : Nat → String → Option Val
   /-- extern calls performed so far, most recent first -/
   calls : List Call
+  /-- the address the next object created by the program gets -/
+  next : Nat := 1000
 
 /-- oracle for calls that leave the translated fragment -/
 abbrev Ext := St → Val → String → List Val → Option (Val × St)
@@ -572,7 +574,9 @@ def builtin (fn : String) (args : List Val) : Option (M Val) :=
   | "max", [.list []] => some (M.fail (.raise "ValueError"))
   | "min", [.list []] => some (M.fail (.raise "ValueError"))
   | "sum", [.list l] => some (sumList (.int (.lit 0)) l)
+  | "sum", [.list l, start] => some (sumList start l)
   | "cast", [_, v] => some (M.pure v)
+  | "warnings.warn", _ => some (M.pure .none)
   | "len", [.list l] => some (M.pure (.int (.lit l.length)))
   | "len", [.dict ks _] => some (M.pure (.int (.lit ks.length)))
   | "len", [.str s] => some (M.pure (.int (.lit s.length)))
@@ -689,7 +693,10 @@ def eval (env : Env) : Nat → Expr → Vars → St → M (Val × St)
       | Option.none =>
         match env.globals x with
         | some v => M.pure (v, st)
-        | Option.none => M.fail (.unbound x)
+        | Option.none =>
+          -- the built-in type objects (only ever passed to `cast` / compared by name)
+          if x = "int" ∨ x = "float" ∨ x = "bool" ∨ x = "str" then M.pure (.str x, st)
+          else M.fail (.unbound x)
     | .attr e a => do
       let (v, st) ← eval env n e vars st
       getAttr env n v a st
@@ -767,7 +774,42 @@ def eval (env : Env) : Nat → Expr → Vars → St → M (Val × St)
            | Option.none =>
              match lookupFun g env.prog with
              | some fd => callFun env n fd as (kwNames.zip ks) [] st
-             | Option.none => callExt env .none g (as ++ ks) st)
+             | Option.none =>
+               match lookupFun (g ++ ".__init__") env.prog with
+               | some fd => do
+                 -- instantiation of a translated class: a fresh object, then its `__init__`
+                 let a := st.next
+                 let st := { (st.set a "__class__" (.str g)) with next := a + 1 }
+                 let (_, st) ← callFun env n fd (.ref a :: as) (kwNames.zip ks) [] st
+                 M.pure (.ref a, st)
+               | Option.none => callExt env .none g (as ++ ks) st)
+      | .attr (.name "heapq") hop =>
+        -- `heapq` on a list held in an object's field.  Contract modelled: the list is kept *sorted*
+        -- by the elements' `__lt__` (a sorted list is a heap), so `q[0]` is the least element as in
+        -- CPython; the positions of the other elements are CPython's heap layout there and sorted
+        -- order here (compared as multisets by the differential check).
+        (match args with
+         | target :: rest => do
+           let (q, st) ← eval env n target vars st
+           match q, hop, rest with
+           | .list l, "heappush", [xe] => do
+             let (x, st) ← eval env n xe vars st
+             let (l', st) ← sortedInsert env n x l st
+             let (_, st) ← storeField env n target (.list l') vars st
+             M.pure (.none, st)
+           | .list l, "heappop", [] =>
+             (match l with
+              | [] => M.fail (.raise "IndexError")
+              | x :: xs => do
+                let (m, rest, st) ← popMin env n x xs st
+                let (_, st) ← storeField env n target (.list rest) vars st
+                M.pure (m, st))
+           | .list l, "heapify", [] => do
+             let (l', st) ← sortAll env n l st
+             let (_, st) ← storeField env n target (.list l') vars st
+             M.pure (.none, st)
+           | _, _, _ => M.fail (.unsupported ("heapq." ++ hop))
+         | [] => M.fail (.raise "TypeError"))
       | .attr (.name md) m =>
         (match lookupVar md vars, env.globals md with
          | Option.none, Option.none => do
@@ -796,6 +838,91 @@ def evalList (env : Env) : Nat → List Expr → Vars → St → M (List Val × 
     let (v, st) ← eval env n e vars st
     let (vs, st) ← evalList env n es vars st
     M.pure (v :: vs, st)
+
+/-- `a < b` as the program sees it (a user-defined `__lt__` is called), decided -/
+def ltVals (env : Env) : Nat → Val → Val → St → M (Bool × St)
+  | 0, _, _, _ => M.fail .fuel
+  | n+1, a, b, st => do
+    let (r, st) ← cmpVals env n .lt a b st
+    let c ← truthy r
+    M.pure (c, st)
+
+/-- insert before the first element that `x` is less than -/
+def sortedInsert (env : Env) : Nat → Val → List Val → St → M (List Val × St)
+  | 0, _, _, _ => M.fail .fuel
+  | _+1, x, [], st => M.pure ([x], st)
+  | n+1, x, y :: ys, st => do
+    let (c, st) ← ltVals env n x y st
+    if c then M.pure (x :: y :: ys, st)
+    else do
+      let (r, st) ← sortedInsert env n x ys st
+      M.pure (y :: r, st)
+
+/-- the least element of `m :: rest` (first among equals) and the others in their order -/
+def popMin (env : Env) : Nat → Val → List Val → St → M (Val × List Val × St)
+  | 0, _, _, _ => M.fail .fuel
+  | _+1, m, [], st => M.pure (m, [], st)
+  | n+1, m, y :: ys, st => do
+    let (c, st) ← ltVals env n y m st
+    if c then do
+      let (m', r, st) ← popMin env n y ys st
+      M.pure (m', m :: r, st)
+    else do
+      let (m', r, st) ← popMin env n m ys st
+      M.pure (m', y :: r, st)
+
+/-- insertion sort by `__lt__` -/
+def sortAll (env : Env) : Nat → List Val → St → M (List Val × St)
+  | 0, _, _ => M.fail .fuel
+  | _+1, [], st => M.pure ([], st)
+  | n+1, x :: xs, st => do
+    let (r, st) ← sortAll env n xs st
+    sortedInsert env n x r st
+
+/-- `item == x` as `list.__contains__` / `list.remove` evaluate it: identity first, then the
+item's `__eq__` -/
+def itemEq (env : Env) : Nat → Val → Val → St → M (Bool × St)
+  | 0, _, _, _ => M.fail .fuel
+  | n+1, item, x, st =>
+    match item, x with
+    | .ref a, .ref b =>
+      if a = b then M.pure (true, st)
+      else do
+        let (r, st) ← cmpVals env n .eq item x st
+        let c ← truthy r
+        M.pure (c, st)
+    | _, _ => do
+      let (r, st) ← cmpVals env n .eq item x st
+      let c ← truthy r
+      M.pure (c, st)
+
+def memListU (env : Env) : Nat → Val → List Val → St → M (Bool × St)
+  | 0, _, _, _ => M.fail .fuel
+  | _+1, _, [], st => M.pure (false, st)
+  | n+1, x, y :: ys, st => do
+    let (c, st) ← itemEq env n y x st
+    if c then M.pure (true, st) else memListU env n x ys st
+
+/-- `list.remove(x)`: drop the first item equal to `x` (`none` = no such item) -/
+def removeFirst (env : Env) : Nat → Val → List Val → St → M (Option (List Val) × St)
+  | 0, _, _, _ => M.fail .fuel
+  | _+1, _, [], st => M.pure (Option.none, st)
+  | n+1, x, y :: ys, st => do
+    let (c, st) ← itemEq env n y x st
+    if c then M.pure (some ys, st)
+    else do
+      let (r, st) ← removeFirst env n x ys st
+      M.pure (r.map (y :: ·), st)
+
+/-- store into a target that must be a heap location (not a local variable) -/
+def storeField (env : Env) : Nat → Expr → Val → Vars → St → M (Unit × St)
+  | 0, _, _, _, _ => M.fail .fuel
+  | n+1, target, v, vars, st =>
+    match target with
+    | .attr _ _ => do
+      let (_, st) ← store env n target v vars st
+      M.pure ((), st)
+    | _ => M.fail (.unsupported "heapq on a local list")
 
 /-- the elements of a comprehension (its variable lives in a frame of its own) -/
 def evalComp (env : Env) : Nat → Expr → Expr → List Expr → List Val → Vars → St → M (List Val × St)
@@ -874,6 +1001,18 @@ def cmpVals (env : Env) : Nat → CmpOp → Val → Val → St → M (Val × St)
     | some fd => callFun env n fd [a, b] [] [] st
     | Option.none =>
       match op with
+      | .isIn =>
+        (match b with
+         | .list l => do
+           let (r, st) ← memListU env n a l st
+           M.pure (.bool (.lit r), st)
+         | _ => do M.pure ((← primCmp op a b), st))
+      | .notIn =>
+        (match b with
+         | .list l => do
+           let (r, st) ← memListU env n a l st
+           M.pure (.bool (.lit (!r)), st)
+         | _ => do M.pure ((← primCmp op a b), st))
       | .ne =>
         -- the default `__ne__` inverts a user-defined `__eq__`
         (match userMethod env st a (some "__eq__") with
@@ -940,6 +1079,21 @@ def exec (env : Env) : Nat → Stmt → Vars → St → M (Flow × Vars × St)
         let (_, st) ← eval env n (.call (.attr target "append") [arg] [] []) vars st
         M.pure (.normal, vars, st)
       | _ => M.fail (.unsupported "append on this value")
+    | .expr (.call (.attr target "remove") [arg] [] []) => do
+      let (c, st) ← eval env n target vars st
+      match c with
+      | .list l => do
+        let (x, st) ← eval env n arg vars st
+        let (r, st) ← removeFirst env n x l st
+        match r with
+        | Option.none => M.fail (.raise "ValueError")
+        | some l' => do
+          let (vars, st) ← store env n target (.list l') vars st
+          M.pure (.normal, vars, st)
+      | .ref _ => do
+        let (_, st) ← eval env n (.call (.attr target "remove") [arg] [] []) vars st
+        M.pure (.normal, vars, st)
+      | _ => M.fail (.unsupported "remove on this value")
     | .expr (.call (.attr target "pop") [arg] [] []) => do
       let (c, st) ← eval env n target vars st
       match c with
